@@ -1,6 +1,7 @@
 import TsVerif.C07.Model
 import TsVerif.C07.Pools
 import TsVerif.C07.Ranges
+import TsVerif.C07.Walks
 /-!
 # C07 — No memory-unsafe behaviour, assertion failure or leak for any conforming use
 
@@ -27,6 +28,7 @@ on, on models tied to the code; the property itself is decided on real execution
 | capture lists are never shared between query states, the pool respects its limit | `capture_acquire_ok`, `capture_release_ok`, `capture_reset_ok` |
 | external scanner states: inline ≤ 24 bytes, heap otherwise; allocations = frees | `ess_roundtrip` |
 | an exhausted cursor into a `TSRange` array is never dereferenced: `ts_range_array_get_changed_ranges` (after the fix; the loop as found reads `ranges[count]`, see `changed_ranges_asis_reads_out_of_bounds`) and `ts_lexer__advance` (after the fix; as found: `lexer_advance_asis_reads_out_of_bounds`) | `changed_ranges_reads_in_bounds`, `lexer_advance_reads_in_bounds` |
+| `links[i]` / `links[link_count++]` of a stack node, `list.contents[i]` of the capture-list pool, `captures->contents[consumed]`: every touched element exists — all in bounds AS FOUND; unguarded variants refuted | `add_link_accesses_in_bounds` (+ `_graph`, from `stack_links_bounded`), `add_link_unguarded_stores_out_of_bounds`; `cap_accesses_in_bounds`, `cap_history_in_bounds`, `cap_acquired_id_in_bounds`; `consumed_read_in_bounds`, `consumed_read_unguarded_out_of_bounds` (Walks.lean) |
 | `capture_ids[MAX_STEP_CAPTURE_COUNT]` of a query step is never overrun | `step_captures_bounded` (tied by the `bits` probe: slots, surplus captures dropped, `depth` untouched) |
 | `iterators_bounded`, `children_before_header` | OPEN (not ported) |
 -/
@@ -448,6 +450,112 @@ theorem step_captures_bounded (cs : List Nat) :
     · exact h
 
 example : [1, 2, 3, 4, 5, 6].foldl addCapture [] = [1, 2, 3] := by decide
+
+/-! ## The other ported array walks: which elements they touch -/
+
+/-- **`stack_node_add_link` (as found)**: on a node whose `link_count` is within the array, every
+`links[i]` the scanning loop reads is a valid element, every `links[j]` of the node being merged is
+valid, and the store `links[link_count++]` hits a slot of the array. -/
+theorem add_link_accesses_in_bounds (count otherCount : Nat) (stop : Option (Nat × Bool))
+    (hc : count ≤ MAX_LINK_COUNT) :
+    let a := addLinkAccesses .eqMax count otherCount stop
+    (∀ i ∈ a.reads, i < count) ∧ (∀ j ∈ a.mergeReads, j < otherCount) ∧ (∀ k, a.store = some k → k < MAX_LINK_COUNT) := by
+  cases stop with
+  | some st =>
+    obtain ⟨i, m⟩ := st
+    refine ⟨?_, ?_, ?_⟩
+    · intro x hx; simp [addLinkAccesses] at hx; omega
+    · intro x hx; simp only [addLinkAccesses] at hx; split at hx <;> simp at hx; exact hx
+    · intro k hk; simp [addLinkAccesses] at hk
+  | none =>
+    refine ⟨?_, ?_, ?_⟩
+    · intro x hx; simpa [addLinkAccesses] using hx
+    · intro x hx; simp [addLinkAccesses] at hx
+    · intro k hk
+      simp only [addLinkAccesses] at hk
+      split at hk
+      · cases hk
+      · rename_i hb
+        cases hk
+        simp at hb
+        omega
+
+/-- … and the precondition `link_count ≤ MAX_LINK_COUNT` is an invariant of every graph under every
+call, recursion included (`stack_links_bounded`), so it holds for every node the next call sees. -/
+theorem add_link_accesses_in_bounds_graph (fuel : Nat) (g : Graph) (self : Nat) (link : Link) (hg : g.Bounded)
+    (n : SNode) (hn : n ∈ addLink fuel g self link) (otherCount : Nat) (stop : Option (Nat × Bool)) :
+    ∀ k, (addLinkAccesses .eqMax n.links.length otherCount stop).store = some k → k < MAX_LINK_COUNT :=
+  (add_link_accesses_in_bounds n.links.length otherCount stop (stack_links_bounded fuel g self link hg n hn)).2.2
+
+/-- Refuted without the guard, and with `>` for `==` (hand mutation `mutP3`): a full node stores at
+index `MAX_LINK_COUNT`, one past the array (inside the struct: no sanitizer sees it). -/
+theorem add_link_unguarded_stores_out_of_bounds :
+    (addLinkAccesses .none MAX_LINK_COUNT 0 none).store = some MAX_LINK_COUNT ∧
+    (addLinkAccesses .gtMax MAX_LINK_COUNT 0 none).store = some MAX_LINK_COUNT := by decide
+
+/-- **Capture-list pool (as found)**: every element of `list.contents` that `get`, `acquire`,
+`release` or `reset` touches exists at that moment — for ANY id (stale ids of lists dropped by a
+lowered limit included: `get` answers with the empty list, `release` does nothing). -/
+theorem cap_accesses_in_bounds (p : CapPool) (op : CapOp) : ∀ i ∈ capAccesses p op, i < p.inUse.length := by
+  intro i hi
+  cases op with
+  | get id => simp only [capAccesses] at hi; split at hi <;> simp at hi; omega
+  | release id => simp only [capAccesses] at hi; split at hi <;> simp at hi; omega
+  | setMax m => simp [capAccesses] at hi
+  | acquire =>
+    simp only [capAccesses] at hi
+    split at hi
+    · cases hu : firstUnused p.inUse with
+      | none => rw [hu] at hi; simpa using hi
+      | some k =>
+        rw [hu] at hi
+        have hk := firstUnused_spec _ _ hu
+        have hlt : k < p.inUse.length := by
+          rcases Nat.lt_or_ge k p.inUse.length with h | h
+          · exact h
+          · rw [List.getElem?_eq_none h] at hk; cases hk
+        simp at hi; omega
+    · simp at hi
+  | reset =>
+    simp only [capAccesses, List.mem_append, List.mem_map, List.mem_range] at hi
+    rcases hi with ⟨k, hk, rfl⟩ | hi
+    · omega
+    · omega
+
+/-- Over whole histories: every access of every operation is below the size the array has at that
+moment. -/
+theorem cap_history_in_bounds : ∀ (ops : List CapOp) (p : CapPool), ∀ a ∈ capHistory p ops, a.1 < a.2
+  | [], _, a, ha => by simp [capHistory] at ha
+  | op :: ops, p, a, ha => by
+    simp only [capHistory, List.mem_append, List.mem_map] at ha
+    rcases ha with ⟨i, hi, rfl⟩ | ha
+    · exact cap_accesses_in_bounds p op i hi
+    · exact cap_history_in_bounds ops _ a ha
+
+/-- The id `acquire` hands out is a valid element afterwards (the `ts_assert(id < list.size)` of
+`capture_list_pool_get_mut` holds for it). -/
+theorem cap_acquired_id_in_bounds (p : CapPool) (h : p.Ok) (i : Nat) (hi : p.acquire.2 = some i) :
+    i < p.acquire.1.inUse.length := by
+  have := (capture_acquire_ok p h).2
+  rw [hi] at this
+  exact this.1
+
+/-- The read at a state's consumed-capture cursor: in bounds behind the size test (as found), refuted
+without it. -/
+theorem consumed_read_in_bounds (consumed size : Nat) : ∀ i, consumedRead true consumed size = some i → i < size := by
+  intro i h
+  simp only [consumedRead] at h
+  split at h
+  · cases h
+  · rename_i hc; cases h; simp at hc; omega
+
+theorem consumed_read_unguarded_out_of_bounds : ∃ i, consumedRead false 3 3 = some i ∧ ¬ i < 3 := ⟨3, by decide, by decide⟩
+
+/-- Non-vacuity: a history that grows the pool to three lists, lowers the limit to one, resets
+(elements 2 and 1 are dropped through `array_back`, element 0 is cleared) and then uses a stale id. -/
+example : capHistory { inUse := [], max := 4294967295, freeCount := 0 }
+    [.acquire, .acquire, .acquire, .release 1, .acquire, .setMax 1, .reset, .get 2, .release 2, .get 0]
+    = [(1, 3), (0, 3), (1, 3), (2, 3), (1, 3), (0, 3), (0, 1)] := by decide
 
 /-! ## Range cursors (wave 5: two out-of-bounds reads found by other properties' sanitizer runs) -/
 
